@@ -169,6 +169,55 @@ fn golden_case<K: Kt>(a: &Args, gdir: &Path, ctx: &mut Ctx, rng: &mut Rng, ed: &
     })
 }
 
+/// the key bytes each key type makes of integers and strings are part of the released format (they are what is stored
+/// and hashed): `conversions.txt` was written by the pinned commit, the current build must reproduce every line
+fn check_conversions(golden_dir: &str, ctx: &mut Ctx) -> Option<String> {
+    use abyssiniandb::{DbBytes, DbI64, DbMapKeyType, DbString, DbU64, DbVu64};
+    let Ok(t) = std::fs::read_to_string(Path::new(golden_dir).join("conversions.txt")) else {
+        ctx.inconclusive.push("conversions.txt of the golden set is missing".into());
+        return None;
+    };
+    for l in t.lines().filter(|l| !l.starts_with('#') && !l.is_empty()) {
+        let p: Vec<&str> = l.split(' ').collect();
+        if p.len() < 3 {
+            continue;
+        }
+        let want = p.get(3).copied().unwrap_or("");
+        let r = crate::session::guarded(crate::session::STEP_BUDGET_BASE, || -> Option<Vec<u8>> {
+            let ux = || p[2].parse::<u64>().ok();
+            let ix = || p[2].parse::<i64>().ok();
+            let sx = || unhex(p[2]).and_then(|b| String::from_utf8(b).ok());
+            Some(match (p[0], p[1]) {
+                ("bytes", "u64") => DbBytes::from(ux()?).as_bytes().to_vec(),
+                ("bytes", "ref_u64") => DbBytes::from(&ux()?).as_bytes().to_vec(),
+                ("string", "u64") => DbString::from(ux()?).as_bytes().to_vec(),
+                ("string", "ref_u64") => DbString::from(&ux()?).as_bytes().to_vec(),
+                ("u64", "u64") => DbU64::from(ux()?).as_bytes().to_vec(),
+                ("u64", "ref_u64") => DbU64::from(&ux()?).as_bytes().to_vec(),
+                ("vu64", "u64") => DbVu64::from(ux()?).as_bytes().to_vec(),
+                ("vu64", "ref_u64") => DbVu64::from(&ux()?).as_bytes().to_vec(),
+                ("i64", "i64") => DbI64::from(ix()?).as_bytes().to_vec(),
+                ("i64", "ref_i64") => DbI64::from(&ix()?).as_bytes().to_vec(),
+                ("bytes", "str") => DbBytes::from(sx()?.as_str()).as_bytes().to_vec(),
+                ("string", "str") => DbString::from(sx()?.as_str()).as_bytes().to_vec(),
+                ("u64", "str") => DbU64::from(sx()?.as_str()).as_bytes().to_vec(),
+                ("i64", "str") => DbI64::from(sx()?.as_str()).as_bytes().to_vec(),
+                _ => return None,
+            })
+        });
+        ctx.count("golden.conversions_checked", 1);
+        let got = match r {
+            crate::session::Guard::Ok(Some(b)) => crate::util::hex(&b),
+            crate::session::Guard::Ok(None) => continue,
+            crate::session::Guard::Hang(m) | crate::session::Guard::Panic(m) => format!("(panic: {m})"),
+        };
+        if got != want {
+            return Some(format!("the key bytes the {} key type makes of the {} {} are {got}; the released format has {want}", p[0], p[1], p[2]));
+        }
+    }
+    None
+}
+
 pub fn run(a: &Args) -> Ctx {
     // every monitor that fires while a released image is read or updated refutes C12
     let mut ctx = Ctx::new("C12", &["C12", "C01", "C02", "C04", "C05", "C06"], &a.replay_dir, &a.shard_name());
@@ -186,6 +235,13 @@ pub fn run(a: &Args) -> Ctx {
     if dirs.is_empty() {
         ctx.inconclusive.push("no golden images".into());
         return ctx;
+    }
+    if a.shard == 0 {
+        if let Some(m) = check_conversions(&golden_dir, &mut ctx) {
+            let st = ctx.classify(finding(&["C12"], "golden", 0, m));
+            ctx.record_stop(st, None);
+            return ctx;
+        }
     }
     for (i, g) in dirs.iter().enumerate() {
         if i % a.nshards != a.shard {
